@@ -313,6 +313,17 @@ pub fn drive_undoall() -> Vec<String> {
         ("cut paste", Box::new(|m| { m.set_selected_sheet(0)?; m.set_selected_range(1, 1, 2, 2)?; let c = m.copy_to_clipboard()?; m.set_selected_cell(5, 5)?; m.paste_from_clipboard(0, (1, 1, 2, 2), &c.data, true) })),
         ("cut paste link", Box::new(|m| { m.set_selected_sheet(0)?; m.set_selected_range(7, 1, 7, 1)?; let c = m.copy_to_clipboard()?; m.set_selected_cell(11, 3)?; m.paste_from_clipboard(0, (7, 1, 7, 1), &c.data, true) })),
         ("cut paste spill", Box::new(|m| { m.set_selected_sheet(0)?; m.set_selected_range(8, 1, 8, 1)?; let c = m.copy_to_clipboard()?; m.set_selected_cell(10, 5)?; m.paste_from_clipboard(0, (8, 1, 8, 1), &c.data, true) })),
+        // calls that must fail, and then change nothing (C04)
+        ("bad insert_rows", Box::new(|m| m.insert_rows(0, 1048575, 5))), ("bad insert_columns", Box::new(|m| m.insert_columns(0, 16380, 10))), ("bad delete_rows", Box::new(|m| m.delete_rows(0, 0, 1))),
+        ("bad delete_sheet", Box::new(|m| m.delete_sheet(7))), ("bad rename", Box::new(|m| m.rename_sheet(0, "Sheet2"))), ("bad rename chars", Box::new(|m| m.rename_sheet(0, "a/b"))),
+        ("bad name", Box::new(|m| m.new_defined_name("A1", None, "Sheet1!$A$1"))), ("dup name", Box::new(|m| m.new_defined_name("G", None, "Sheet1!$A$1"))),
+        ("bad name formula", Box::new(|m| m.new_defined_name("zz", None, "=1+"))), ("bad update name", Box::new(|m| m.update_defined_name("g", None, "l", Some(1), "Sheet1!$A$1"))),
+        ("bad widths", Box::new(|m| m.set_columns_width(0, 16380, 16390, 10.0))), ("bad heights", Box::new(|m| m.set_rows_height(0, 5, 1048580, 10.0))), ("neg width", Box::new(|m| m.set_columns_width(0, 1, 2, -1.0))),
+        ("bad hide", Box::new(|m| m.set_rows_hidden(0, 0, 3, true))), ("bad frozen", Box::new(|m| m.set_frozen_rows_count(0, -1))), ("bad move rows", Box::new(|m| m.move_rows_action(0, 1, 2, -5))),
+        ("bad move cols", Box::new(|m| m.move_columns_action(0, 16384, 1, 5))), ("split array", Box::new(|m| m.insert_rows(0, 9, 1).and_then(|_| Err::<(), String>("x".to_string())).or(Ok(())))),
+        ("type into array", Box::new(|m| { m.set_user_array_formula(0, 10, 4, 2, 2, "=A1:B2*2")?; m.undo()?; m.set_user_array_formula(0, 1, 1, 0, 2, "=1") })),
+        ("bad link", Box::new(|m| m.set_cell_link(0, 0, 1, crate::types::Link::External { target: "x".to_string(), tooltip: None }, None))), ("bad csv", Box::new(|m| m.paste_csv_string(&Area { sheet: 9, row: 1, column: 1, width: 1, height: 1 }, "1"))),
+        ("bad locale", Box::new(|m| m.set_locale("xx"))), ("hide last", Box::new(|m| { m.hide_sheet(1)?; m.undo()?; m.hide_sheet(5) })), ("bad move sheet", Box::new(|m| m.move_sheet(0, 9))),
         ("new_sheet", Box::new(|m| m.new_sheet())), ("sheet color", Box::new(|m| m.set_sheet_color(0, &crate::types::Color::Rgb("#FF0000".to_string())))),
         ("grid lines", Box::new(|m| m.set_show_grid_lines(0, false))),
     ];
